@@ -15,6 +15,8 @@ Effects (array stores) and results are returned per path.  Anything outside
 the modelled subset raises AnalysisError (exit 2), never a guess.
 """
 import ast
+
+from ..astutil import clone
 import itertools
 
 from ..core import AnalysisError
@@ -1389,7 +1391,7 @@ def _pycmp(op, a, b):
 
 def _load(t):
     import copy
-    n = copy.deepcopy(t)
+    n = clone(t)
     for x in ast.walk(n):
         if hasattr(x, 'ctx'):
             x.ctx = ast.Load()
